@@ -72,6 +72,41 @@ class HistSub(_Notes, HistoryObserver):
         self._note("reset")
 
 
+def _obs_mwkr():
+    from job_shop_lib.dispatching.rules import observer_based_most_work_remaining_rule
+    return observer_based_most_work_remaining_rule
+
+
+class _Lazy(dict):
+    def __missing__(self, k):
+        from job_shop_lib.dispatching import rules as R
+        table = {"spt": "shortest_processing_time", "fcfs": "first_come_first_served",
+                 "mwkr": "most_work_remaining", "mor": "most_operations_remaining",
+                 "random": "random", "obs_mwkr": R.observer_based_most_work_remaining_rule}
+        self.update(table)
+        return self[k]
+
+
+RULES = _Lazy()
+
+
+def _scores():
+    from job_shop_lib.dispatching import rules as R
+    return {"spt_score": lambda: R.shortest_processing_time_score,
+            "fcfs_score": lambda: R.first_come_first_served_score,
+            "mwkr_score": R.MostWorkRemainingScorer,
+            "mor_score": lambda: R.most_operations_remaining_score}
+
+
+class _LazyScores(dict):
+    def __missing__(self, k):
+        self.update(_scores())
+        return self[k]
+
+
+SCORES = _LazyScores()
+
+
 def _outcome(fn):
     try:
         return "ok", fn()
@@ -222,6 +257,60 @@ class DSession:
                   "res": self._oid_of(obj) if out == "ok" else 0,
                   "same_subs": before == list(d.subscribers)})
 
+    # -- dispatching rules (C04) -------------------------------------------
+    def rule_step(self, rule, chooser):
+        """One DispatchingRuleSolver.step on this dispatcher.  A recording
+        observer must be subscribed: what it is told is the selection."""
+        from job_shop_lib.dispatching.rules import DispatchingRuleSolver
+        solver = DispatchingRuleSolver(dispatching_rule=RULES[rule], machine_chooser=chooser,
+                                       ready_operations_filter=None)
+        out, _ = _outcome(lambda: solver.step(self.dispatcher))
+        self._ev({"a": "RuleStep", "rule": rule, "chooser": chooser, "out": out})
+        return out
+
+    def rule_picks(self, rules):
+        from job_shop_lib.dispatching.rules import dispatching_rule_factory
+        picks = []
+        for r in rules:
+            fn = RULES[r]
+            fn = dispatching_rule_factory(fn) if isinstance(fn, str) else fn
+            out, op = _outcome(lambda: fn(self.dispatcher))
+            picks.append({"rule": r, "out": out, "res": model.op_ref(op) if out == "ok" else [0, 0]})
+        self._ev({"a": "RulePicks", "picks": picks})
+
+    def score_rule(self, fns):
+        from job_shop_lib.dispatching.rules import score_based_rule_with_tie_breaker, score_based_rule
+        fs = [SCORES[f]() for f in fns]
+        scores = []
+        for f in fs:
+            o, v = _outcome(lambda: [model.num(x) for x in f(self.dispatcher)])
+            scores.append(v if o == "ok" else [])
+        rule = score_based_rule(fs[0]) if len(fs) == 1 and self.tid % 2 else score_based_rule_with_tie_breaker(fs)
+        out, op = _outcome(lambda: rule(self.dispatcher))
+        self._ev({"a": "ScoreRule", "fns": list(fns), "scores": scores, "out": out,
+                  "res": model.op_ref(op) if out == "ok" else [0, 0]})
+
+    def solver_call(self, rule, chooser, filt):
+        from job_shop_lib.dispatching.rules import DispatchingRuleSolver
+        names = [model.FILTER_NAMES[f] for f in filt] if filt is not None else None
+        if names is not None and len(names) == 1 and self.tid % 2:
+            names = names[0]
+
+        def go():
+            solver = DispatchingRuleSolver(dispatching_rule=RULES[rule], machine_chooser=chooser,
+                                           ready_operations_filter=names)
+            return solver(self.instance)
+
+        out, sch = _outcome(go)
+        ev = {"a": "SolverCall", "rule": rule, "chooser": chooser, "sfilt": list(filt or []), "out": out,
+              "sched": [], "elapsed_sign": 0, "solved_by": ""}
+        if out == "ok":
+            el = sch.metadata.get("elapsed_time")
+            ev.update({"sched": model.project_schedule(sch),
+                       "elapsed_sign": (-2 if not isinstance(el, (int, float)) else (el > 0) - (el < 0)),
+                       "solved_by": str(sch.metadata.get("solved_by"))})
+        self._ev(ev)
+
     def replay(self, mode):
         """Re-dispatch the recorded history (as the GIF/video code does) on a
         fresh dispatcher or on this one after reset()."""
@@ -306,6 +395,14 @@ def rerun_trace(tid, trace) -> dict:
             s.create_or_get(ev["cls"])
         elif a == "Replay":
             s.replay(ev["mode"])
+        elif a == "RuleStep":
+            s.rule_step(ev["rule"], ev["chooser"])
+        elif a == "RulePicks":
+            s.rule_picks([p["rule"] for p in ev["picks"]])
+        elif a == "ScoreRule":
+            s.score_rule(ev["fns"])
+        elif a == "SolverCall":
+            s.solver_call(ev["rule"], ev["chooser"], ev["sfilt"])
         else:
             raise ValueError(a)
     return s.trace()
